@@ -3,8 +3,8 @@ nanite.preproc)."""
 ID = "C14"
 ENGINE = "crosshair"
 UNITS = "xh/c14_units.py"
-SOURCES = ["src/nanite/preproc.py"]
-FUNCTIONS = ["preproc.autosort", "preproc.check_order", "preproc.available", "preproc.apply",
+SOURCES = ["src/nanite/preproc.py", "src/nanite/indent.py"]
+FUNCTIONS = ["indent.Indentation.apply_preprocessing (two consecutive requests)", "preproc.autosort", "preproc.check_order", "preproc.available", "preproc.apply",
              "preproc.get_func", "preproc.preprocessing_step (registration data)"]
 EXPLANATION = (
     "CrossHair executes the real preproc.autosort/check_order/apply symbolically on "
@@ -15,7 +15,11 @@ EXPLANATION = (
     "satisfies an independently written order predicate and check_order, is "
     "idempotent and leaves valid orders unchanged; check_order passes iff the "
     "predicate holds; apply accepts iff every required step occurs earlier; "
-    "available() is valid; unknown identifiers (symbolic str, len<=3) raise KeyError.")
+    "available() is valid; unknown identifiers (symbolic str, len<=3) raise KeyError. "
+    "The acceptance rule is also checked through the public curve API: two "
+    "consecutive apply_preprocessing requests with solver-chosen step lists "
+    "(lengths L1,L2<=2; thorough L1,L2<=3 with L1+L2<=5): the second is accepted iff its own order "
+    "satisfies the rule, whatever was applied before.")
 ASSUMPTIONS = [
     "step bodies are no-ops in the apply condition (order logic only); registration data are the real ones",
     "the six shipped steps; unknown identifiers up to 3 characters",
@@ -24,6 +28,7 @@ ASSUMPTIONS = [
 
 def bounds(tier):
     return {"selection length L": "0..5" if tier == "quick" else "0..6 (all 1957 ordered selections)",
+            "curve API": "two requests, lengths L1,L2<=2 (thorough: <=3 with L1+L2<=5)",
             "unknown identifier length": "<=3", "per-condition timeout s": 400 if tier == "quick" else 1500}
 
 
@@ -34,6 +39,10 @@ def conditions(tier):
     for fn in ("autosort", "check_order", "apply"):
         for n in range(0, top + 1):
             cs.append({"fn": f"{fn}_len{n}", "timeout_s": t, "family": fn})
+    lens = [(a, b) for a in range(0, 4) for b in range(0, 4)
+            if (a <= 2 and b <= 2 if tier == "quick" else a + b <= 5)]
+    for a, b in lens:
+        cs.append({"fn": f"curve_api_len{a}_{b}", "timeout_s": t, "family": "curve-api"})
     cs.append({"fn": "unknown_identifier", "timeout_s": t, "family": "unknown"})
     cs.append({"fn": "available_valid", "timeout_s": 60, "family": "available"})
     return cs
